@@ -285,14 +285,31 @@ def b_int(ex, st, args, kwargs, node):
     if isinstance(v.ty, Ty.TStr):
         # exact for plain decimal numerals; any other spelling that int() accepts (sign, spaces, underscores)
         # yields an unconstrained integer, a non-numeral raises ValueError
+        # int() is a FUNCTION of the text (A-STR): int_ok(s) says whether it parses, int_val(s) is the value
         s = vs(v.term)
         num = z3.StrToInt(s)
-        r = fresh('int', IntS)
-        ok = fresh('int_ok', BoolS)
+        from .state import ghost as _ghost
+        f_ok, f_val = _ghost('int_ok', ['Val'], 'Bool')[0], _ghost('int_val', ['Val'], 'Int')[0]
+        r, ok = f_val(VStr(s)), f_ok(VStr(s))
         st.assume(Implies(num >= 0, And(ok, r == num)))
         good, bad = ex.fork(st, ok, None)
         raises = [ex.raised(bad, 'builtins:ValueError')] if bad is not None else []
         return ([(good, I(r))] if good is not None else []), raises
+    if isinstance(v.ty, Ty.TAny):
+        # unknown static type: a str parses or not, an int / bool is its own value, anything else is a TypeError
+        normals, raises = [], []
+        rest = st
+        for t in (Ty.STR, Ty.INT, Ty.BOOL):
+            if rest is None:
+                break
+            yes, rest = ex.fork(rest.copy(), shape(rest, v.term, t), None)
+            if yes is not None:
+                ns, rs = b_int(ex, yes, [SV(v.term, t)], kwargs, node)
+                normals.extend(ns)
+                raises.extend(rs)
+        if rest is not None:
+            raises.append(ex.raised(rest, 'builtins:TypeError'))
+        return normals, raises
     if isinstance(v.ty, Ty.TOpt):
         nn, isn = ex.fork(st, Not(is_none(v.term)), None)
         raises = [ex.raised(isn, 'builtins:TypeError')] if isn is not None else []
